@@ -17,14 +17,20 @@ class Undefined(Exception):
 
 
 class Val:
-    __slots__ = ("terms", "neg")
+    """terms: the set so far; neg: a pending removal that found no intercept yet (`0 + ...`);
+    removed: the last intercept literal applied to this sum was a removal (`... + 0`, `... - 1`),
+    which is what `(e | g)` asks about; murky: a removal happened inside a parenthesised operand of
+    `+`, for which the documentation states no expectation under `|`."""
+    __slots__ = ("terms", "neg", "removed", "murky")
 
-    def __init__(self, terms=(), neg=False):
+    def __init__(self, terms=(), neg=False, removed=False, murky=False):
         self.terms = []
         for t in terms:
             if t not in self.terms:
                 self.terms.append(t)
         self.neg = neg
+        self.removed = removed or neg
+        self.murky = murky
 
 
 def call_name(nd):
@@ -129,15 +135,20 @@ class Algebra:
         L, R = self.ev(nd[2]), self.ev(nd[3])
         if op == "+":
             if R.neg and not R.terms:  # ... + 0   /   ... + -1
-                return Val([t for t in L.terms if t != INTERCEPT], L.neg)
+                return Val([t for t in L.terms if t != INTERCEPT], L.neg, removed=True, murky=L.murky)
             self.plain(R, "right operand of +")
             if L.neg and not L.terms and R.terms == [INTERCEPT]:  # 0 + 1
                 return Val([])
-            return Val(L.terms + R.terms, L.neg)
+            if R.terms == [INTERCEPT] and not R.removed:  # ... + 1: the last literal is an addition
+                return Val(L.terms + R.terms, L.neg, removed=L.neg, murky=L.murky or (L.removed and not L.neg))
+            return Val(L.terms + R.terms, L.neg, removed=L.removed, murky=L.murky or R.removed or R.murky)
         if op == "-":
             self.plain(L, "left operand of -")
             self.plain(R, "right operand of -")
-            return Val([t for t in L.terms if t not in R.terms])
+            if R.terms == [INTERCEPT] and not R.removed:  # ... - 1
+                return Val([t for t in L.terms if t != INTERCEPT], removed=True, murky=L.murky)
+            return Val([t for t in L.terms if t not in R.terms], removed=L.removed,
+                       murky=L.murky or R.removed or R.murky or INTERCEPT in R.terms)
         if op == "|":
             self.plain(R, "grouping side")
             if not R.terms or any(t[0] != "t" for t in R.terms):
@@ -145,7 +156,9 @@ class Algebra:
             if any(t[0] == "g" for t in L.terms):
                 raise Undefined("nested |")
             effects = [t for t in L.terms if t != INTERCEPT]
-            if L.neg:
+            if L.murky:
+                raise Undefined("intercept removed and added again, or removed inside an operand, on the effect side")
+            if L.removed:
                 if INTERCEPT in L.terms:
                     raise Undefined("0 and 1 together on the effect side")
                 if not effects:
